@@ -547,13 +547,13 @@ class Differ:
         parent: Any = kwargs.pop("rhs_parent", None)
         parentref: Any = kwargs.pop("parentref", None)
         node_coord = NodeCoords(rhs, parent, parentref)
-        if len(rhs) > 0:
-            if isinstance(rhs[0], CommentedMap):
-                # This list is an Array-of-Hashes
-                self._diff_arrays_of_hashes(path, lhs, rhs, node_coord)
-            else:
-                # This list is an Array-of-Arrays or a simple list of Scalars
-                self._diff_arrays_of_scalars(path, lhs, rhs, node_coord)
+        if len(rhs) > 0 and isinstance(rhs[0], CommentedMap):
+            # This list is an Array-of-Hashes
+            self._diff_arrays_of_hashes(path, lhs, rhs, node_coord)
+        else:
+            # This list is an Array-of-Arrays, a simple list of Scalars, or
+            # empty (whereby every LHS element has been deleted)
+            self._diff_arrays_of_scalars(path, lhs, rhs, node_coord)
 
     # pylint: disable=too-many-locals
     def _diff_sets(
